@@ -43,6 +43,13 @@ func (cliStream) Generate(rng *rand.Rand, tier string, emit func(Case)) {
 		if i%3 != 0 {
 			l = genCleanLayout(rng) // the tool stops at the first cache error: most cases must be error-free
 		}
+		if i < 2 {
+			// two files of one directory in conflict: both are files in error for the library
+			l = layoutDesc{Phys: map[string][]fileDesc{"A": {
+				{Name: "a.json", Kind: "valid", Vendor: "v1.com", Class: "c1", Devs: []string{"d0"}, Tag: "K0"},
+				{Name: "b.yaml", Kind: "valid", Vendor: "v1.com", Class: "c1", Devs: []string{"d0", "d1"}, Tag: "K1", Rich: i == 1}}},
+				Dirs: []string{"p:A"}}
+		}
 		if len(l.Dirs) == 0 {
 			l.Dirs = []string{"p:A"} // without --spec-dirs the tool uses the default directories: not this stream's subject
 		}
